@@ -16,7 +16,7 @@ const CORPORA: [&[&str]; 5] = [
     &["火星/名詞 猫/名詞 だ/助動詞", "猫/動物 が/助詞 鳴く/動詞"],
     // the FIRST sentence has fewer tag categories than later ones with the same tokens; the richest comes in the middle
     // ... and one-token sentences (no boundary at all, so no boundary example): their tags count like any others
-    &["猫/名詞 が/助詞 鳴く/動詞", "猫/名詞/ネコ が/助詞/ガ 鳴く/動詞/ナク", "猫/動物/ネコ/cat が 鳴く/動詞/ナク/cry", "犬/名詞/イヌ が 鳴く", "鳥/名詞/トリ", "猫/生物", "犬/動物/ケン"],
+    &["猫/名詞 が/助詞 鳴く/動詞", "猫/名詞/ネコ が/助詞/ガ 鳴く/動詞/ナク", "猫/動物/ネコ/cat が 鳴く/動詞/ナク/cry", "犬/名詞/イヌ が 鳴く", "鳥/名詞/トリ", "猫/生物", "犬/動物/ケン", "犬/動物 が/助詞"],
     // one token with three candidates decided by its neighbours (sparse solvers leave whole classes of an n-gram at 0)
     &["この/連体 人/ヒト は/助詞 火星/名詞 人/ジン だ/助動", "あの/連体 人/ヒト が/助詞 来/動詞 た/助動", "地球/名詞 人/ジン は/助詞 二/数 人/ニン だ/助動", "木星/名詞 人/ジン も/助詞 三/数 人/ニン だ/助動",
       "彼/代名 ら/接尾 は/助詞 五/数 人/ニン だ/助動", "その/連体 人/ヒト を/助詞 見/動詞 た/助動", "この/連体 人/ヒト も/助詞 一/数 人/ニン だ/助動"],
